@@ -1764,8 +1764,14 @@ PPL::MIP_Problem::erase_artificials(const dimension_type begin_artificials,
 // See page 55 of [PapadimitriouS98].
 void
 PPL::MIP_Problem::compute_generator() const {
+  // NOTE: the tableau only encodes the space dimensions recorded in
+  // `mapping': these are all the space dimensions of the problem, unless
+  // there are pending space dimension additions.
+  PPL_ASSERT(!mapping.empty());
+  const dimension_type space_dim = mapping.size() - 1;
+
   // Early exit for 0-dimensional problems.
-  if (external_space_dim == 0) {
+  if (space_dim == 0) {
     MIP_Problem& x = const_cast<MIP_Problem&>(*this);
     x.last_generator = point();
     return;
@@ -1773,8 +1779,8 @@ PPL::MIP_Problem::compute_generator() const {
 
   // We will store in numer[] and in denom[] the numerators and
   // the denominators of every variable of the original problem.
-  std::vector<Coefficient> numer(external_space_dim);
-  std::vector<Coefficient> denom(external_space_dim);
+  std::vector<Coefficient> numer(space_dim);
+  std::vector<Coefficient> denom(space_dim);
   dimension_type row = 0;
 
   PPL_DIRTY_TEMP_COEFFICIENT(lcm);
@@ -1783,7 +1789,7 @@ PPL::MIP_Problem::compute_generator() const {
   PPL_DIRTY_TEMP_COEFFICIENT(split_denom);
 
   // We start to compute numer[] and denom[].
-  for (dimension_type i = external_space_dim; i-- > 0; ) {
+  for (dimension_type i = space_dim; i-- > 0; ) {
     Coefficient& numer_i = numer[i];
     Coefficient& denom_i = denom[i];
     // Get the value of the variable from the tableau
@@ -1844,21 +1850,21 @@ PPL::MIP_Problem::compute_generator() const {
   }
 
   // Compute the lcm of all denominators.
-  PPL_ASSERT(external_space_dim > 0);
+  PPL_ASSERT(space_dim > 0);
   lcm = denom[0];
-  for (dimension_type i = 1; i < external_space_dim; ++i) {
+  for (dimension_type i = 1; i < space_dim; ++i) {
     lcm_assign(lcm, lcm, denom[i]);
   }
   // Use the denominators to store the numerators' multipliers
   // and then compute the normalized numerators.
-  for (dimension_type i = external_space_dim; i-- > 0; ) {
+  for (dimension_type i = space_dim; i-- > 0; ) {
     exact_div_assign(denom[i], lcm, denom[i]);
     numer[i] *= denom[i];
   }
 
   // Finally, build the generator.
   Linear_Expression expr;
-  for (dimension_type i = external_space_dim; i-- > 0; ) {
+  for (dimension_type i = space_dim; i-- > 0; ) {
     add_mul_assign(expr, numer[i], Variable(i));
   }
 
